@@ -1,12 +1,158 @@
 /-
-  Model of the env solver (history-free answers).  STUB: to be replaced by the real model.
+  Model of `GNU_gama::AdjEnvelope` (lib/gnu_gama/adj/adj_envelope.h): history-free answers
+  of a fresh object.  Core Lean only.
+
+  Order of decisions as coded:
+    solve_ordering : homogenisation (`Env/Homog.lean`), ordering, `tmpvec = Ãᵀb̃` and the
+                     normal matrix `N = ÃᵀÃ` in the new numbering (`Envelope::set`);
+    solve_x0       : `cholDec`, `solve`, `x0(perm(i)) = tmpvec(i)`, `squares = Σ(ã·x0 − b̃)²`,
+                     `nullity = envelope.defect()`;
+    residuals      : `A x0 − b` with the ORIGINAL `A`, `b` (and `x0`, not `x`);
+    solve_x        : `defect = 0 → x = x0`; else kernel columns from the zero pivots,
+                     Gram–Schmidt over `min_x_list` (`pivot < s_tol → BadRegularization`);
+    q0_xx          : full-inverse column (inside the envelope the C++ reads the sparse inverse
+                     `Envelope::inverse`, modelled by `Env.invRec`; same value in exact
+                     arithmetic — `Lemmas/Ls/EnvInverse.lean`);
+    q_xx           : regular → `q0_xx`; singular → `solve_x` (may throw), `Σ a_k/d_k·b_k`;
+    q_bb           : `ã_i · solve(ã_jᵀ)` (both C++ branches);
+    q_bx           : throws `Exception::BadRegularization` ("q_bx not implemented");
+    lindep(i)      : `envelope.diagonal(i) == 0` — the C++ indexes the factor (which lives in
+                     the new numbering) with the ORIGINAL index `i`; `lindepAsCoded` models
+                     that, `lindepFixed` the repaired `diagonal(ordering.invp(i))`
+                     (notes/proposed/C20-envelope-lindep-ordering.diff).
+
+  The ordering is an input (`EnvOrd`): theorems hold for every permutation; the executable
+  model computes the same reverse Cuthill–McKee ordering as the code (`Gama/Model/RCM.lean`,
+  property C16) from the column pattern of the homogenised sparse matrix.
+
+  MODELLED (not verified here): profile/packed storage of the envelope = dense lower
+  triangle (C16); homogenisation computes `U⁻ᵀ[A b]` with `UᵀU = C` (C10).
 -/
 import Gama.Model.Ls.Common
+import Gama.Model.Ls.Env.Core
+import Gama.Model.Ls.Env.Homog
+import Gama.Model.RCM
 namespace Gama.Ls
 variable {K : Type} [Scalar K]
 
-/-- answers of a fresh solver object of this algorithm on problem `p` (solver-level entry:
-    sparse solvers take (A, b, C); full solvers take dense A, b with unit covariance) -/
-def envSolve : Solver K := fun _ => .error .NotModelled
+/-- ordering, 0-based: `perm[new] = old`, `invp[old] = new` -/
+structure EnvOrd where
+  perm : Array Nat
+  invp : Array Nat
+deriving Repr
+
+namespace Env
+
+def idOrd (n : Nat) : EnvOrd := ⟨Array.range n, Array.range n⟩
+
+/-- `SparseMatrixGraph(hom.mat())` + `ReverseCuthillMcKee` on the homogenised pattern -/
+def rcmOrd (n : Nat) (pat : Array (List Nat)) : EnvOrd :=
+  let edges := pat.foldl (fun es cols => rowEdges cols es) []
+  let o := rcm (adjOfEdges n edges)
+  ⟨Array.ofFn (n := n) fun i => o.perm[i.1 + 1]! - 1, Array.ofFn (n := n) fun i => o.invp[i.1 + 1]! - 1⟩
+
+/-- everything `solve_x0` leaves behind, in the new numbering -/
+structure Fact (K : Type) where
+  m : Nat
+  n : Nat
+  /-- homogenised design matrix with permuted columns: `Ap r i = Ã r (perm i)` -/
+  Ap : Nat → Nat → K
+  bt : Nat → K
+  N : DMat K
+  c : Array K
+  rows : Array (Row K)
+  x0p : Array K
+
+def factor (tol : K) (m n : Nat) (At : DMat K) (bt : Array K) (o : EnvOrd) : Fact K :=
+  let Ap : Nat → Nat → K := fun r i => mget At r (o.perm.getD i 0)
+  let N : DMat K := Array.ofFn (n := n) fun i => vecOf n fun j => sumTo m fun r => Ap r i.1 * Ap r j
+  let c : Array K := vecOf n fun i => sumTo m fun r => Ap r i * vget bt r
+  let rows := ldl (mget N) tol n
+  { m := m, n := n, Ap := Ap, bt := vget bt, N := N, c := c, rows := rows, x0p := solve rows n (vget c) }
+
+/-- `squares` : `Σ_r (Σ_j ã_rj x0_j − b̃_r)²` -/
+def squares (f : Fact K) : K :=
+  sumTo f.m fun r =>
+    let t := sumTo f.n (fun i => f.Ap r i * vget f.x0p i) - f.bt r
+    t * t
+
+/-- regularisation list in the new numbering (`ordering.invp(min_x_list[k])`) -/
+def regList (n : Nat) (o : EnvOrd) : Reg → List Nat
+  | .none => (List.range n).map fun i => o.invp.getD i 0
+  | .all => (List.range n).map fun i => o.invp.getD i 0
+  | .subset l => l.map fun k => o.invp.getD (k - 1) 0
+
+/-- `solve_x` : normalised kernel columns `G` and `x` (both in the new numbering) -/
+def solveX (f : Fact K) (S : List Nat) (stol : K) : Except ErrKind (List (Array K) × Array K) :=
+  if defectOf f.rows = 0 then .ok ([], f.x0p)
+  else gs f.n S stol ((depCols f.rows f.n).map (kerCol f.rows f.n)) f.x0p
+
+end Env
+
+open Env
+
+/-- per-query answers (the shared `Answer` cannot express that `unknowns()` throws while
+    `residuals()`, `sum_of_squares()`, `defect()`, `lindep()` do not) -/
+structure EnvAnswer (K : Type) where
+  fact : Fact K
+  ord : EnvOrd
+  x : Except ErrKind (Array K)
+  r : Array K
+  rtr : K
+  defect : Nat
+  qxx : Nat → Nat → Except ErrKind K
+  q0xx : Nat → Nat → Except ErrKind K
+  qbb : Nat → Nat → Except ErrKind K
+  qbx : Nat → Nat → Except ErrKind K
+  lindepAsCoded : Nat → Except ErrKind Bool
+  lindepFixed : Nat → Except ErrKind Bool
+
+/-- the solver on an already homogenised system `(At, bt)`; residuals with the original `(A, b)` -/
+def envCore (tol stol : K) (m n : Nat) (A : DMat K) (b : Array K) (At : DMat K) (bt : Array K)
+    (reg : Reg) (o : EnvOrd) : EnvAnswer K :=
+  let f := factor tol m n At bt o
+  let S := regList n o reg
+  let sx := solveX f S stol
+  let x0 : Array K := vecOf n fun j => vget f.x0p (o.invp.getD j 0)
+  let inr (i : Nat) (k : Nat) : Bool := 1 ≤ i && i ≤ k
+  let nw (i : Nat) : Nat := o.invp.getD (i - 1) 0
+  { fact := f, ord := o
+    x := sx.map fun gx => vecOf n fun j => vget gx.2 (o.invp.getD j 0)
+    r := vecOf m fun i => sumTo n (fun j => mget A i j * vget x0 j) - vget b i
+    rtr := squares f
+    defect := defectOf f.rows
+    q0xx := fun i j => if inr i n && inr j n then .ok (q0 f.rows n (nw i) (nw j)) else .error .NotModelled
+    qxx := fun i j =>
+      if !(inr i n && inr j n) then .error .NotModelled
+      else if defectOf f.rows = 0 then .ok (q0 f.rows n (nw i) (nw j))
+      else sx.map fun gx => qxxSing f.rows n S gx.1 (nw i) (nw j)
+    qbb := fun i j =>
+      if inr i m && inr j m then
+        let t := solve f.rows n (fun k => f.Ap (j - 1) k)
+        .ok (sumTo n fun k => f.Ap (i - 1) k * vget t k)
+      else .error .NotModelled
+    qbx := fun _ _ => .error .BadRegularization
+    lindepAsCoded := fun i => if inr i n then .ok (Scalar.beq (Dget f.rows (i - 1)) 0) else .error .NotModelled
+    lindepFixed := fun i => if inr i n then .ok (Scalar.beq (Dget f.rows (nw i)) 0) else .error .NotModelled }
+
+/-- `AdjEnvelope` on problem `p` with a given ordering -/
+def envAnswerOrd (p : Problem K) (ord : Array (List Nat) → EnvOrd) : Except ErrKind (EnvAnswer K) :=
+  match homogenize p with
+  | .error e => .error e
+  | .ok h => .ok (envCore sqrtEps sqrtEps p.m p.n p.dense p.rhs h.At h.bt p.reg (ord h.pat))
+
+/-- `AdjEnvelope` as coded: reverse Cuthill–McKee ordering of the homogenised pattern -/
+def envAnswer (p : Problem K) : Except ErrKind (EnvAnswer K) := envAnswerOrd p (rcmOrd p.n)
+
+/-- answers of a fresh solver object of this algorithm on problem `p` (shared vocabulary).
+    `unknowns()` throwing `BadRegularization` makes the whole shared answer an error. -/
+def envSolve : Solver K := fun p =>
+  match envAnswer p with
+  | .error e => .error e
+  | .ok a =>
+    match a.x with
+    | .error e => .error e
+    | .ok x => .ok { x := x, r := a.r, rtr := a.rtr, defect := a.defect, qxx := a.qxx, q0xx := a.q0xx
+                     qbb := a.qbb, qbx := a.qbx, lindep := a.lindepAsCoded }
 
 end Gama.Ls
